@@ -457,6 +457,9 @@ def gen_history(rng, big: bool):
     for _ in range(nops):
         i = rng.randrange(nm)
         ns = names[i]
+        if rng.random() < 0.06 and len(ns) < 9:     # a variable registered in the middle of the history
+            ns.append(f"def_late{i}_{len(ns)}")
+            ops.append(("nv", i, ns[-1]))
         r = rng.random()
         if r < 0.10:
             c = [rand_lit(rng, ns) for _ in range(rng.choice([0, 1, 2, 2, 3, 4]))]
@@ -625,7 +628,8 @@ def exhaustive_small(ctx: Ctx, reqs, todo) -> None:
 
 def run(ctx: Ctx) -> None:
     ctx.rule = ("random posting histories: 1–3 managers sharing the ROBDD store (same or different variable names), 2–8 user "
-                "variables each (10–12 in 2.5% of the histories), 1–8 ops per manager drawn from add_clause / imply / quadratic / "
+                "variables each (10–12 in 2.5% of the histories) registered through newvar before use (mostly up front, 6% of the ops "
+                "are preceded by a late newvar; 3% of the clauses carry a never-registered literal → solve() must raise KeyError), 1–8 ops per manager drawn from add_clause / imply / quadratic / "
                 "heule(k ∈ {3,4,5,6} and refused k<3) / pseudoboolencoding (0–6 terms left, 0–2 right, coefficients −4…6 or −9…23 "
                 "incl. 0 and repeated variables, bound around the reachable range, six operator strings + invalid ones, both "
                 "constructions) / solve + value + evalexpr; store reset to [0,1] at the start of each history so that node ids "
